@@ -357,6 +357,27 @@ def history_runs(run_, exe, rng, n, prop):
         if prop == "C05" and rng.random() < 0.3:
             kinds = ["rename", "change", "add", "delete"]
         s = scen.gen_scenario(rng, kinds=kinds, opts=rng.choice([{}, {}, {"nl": "keep"}]), drift=0)
+        if prop == "C06" and rng.random() < 0.4:
+            # the first application itself depends on a matching option (-l on a target whose blanks differ, -F 3 on a target
+            # whose outer context drifted); the re-run carries the same option
+            how = rng.choice(["l", "l", "F3"])
+            secs_ = [scen.section(rng, p_, kind="change", fmt=rng.choice(["unified", "context", "git"]), width=3, nonl=False) for p_ in rng.sample(["w", "wd/w"], rng.choice([1, 2]))]
+            s = scen.base_scenario(rng, secs_, opts=({"l": 1} if how == "l" else {"F": 3}))
+            for x in secs_:
+                k_, m_, d_ = s["tree"][x["path"]]
+                if how == "l":
+                    ls_ = d_.split(b"\n")
+                    ls_ = [(l_.replace(b" ", b" \t").replace(b"\t\t", b"\t") + (b" " if l_ and rng.random() < 0.5 else b"")) for l_ in ls_[:-1]] + ls_[-1:]
+                    d_ = b"\n".join(ls_)
+                else:
+                    h0 = x["hs"][0]
+                    ls_ = d_.split(b"\n")
+                    pos = h0["os"] - 1
+                    if 0 <= pos < len(ls_) - 1 and h0["body"] and h0["body"][0][0] == " ":
+                        ls_[pos] = b"drifted " + ls_[pos]
+                    d_ = b"\n".join(ls_)
+                s["tree"][x["path"]] = (k_, m_, d_)
+            s["how"] = how
         if prop == "C05" and rng.random() < 0.25:
             # sections that consist of a git header only
             secs = [scen.headeronly_section(rng, p_, k_) for p_, k_ in zip(rng.sample(["e1", "dir/e2", "e3"], 2), rng.sample(["add", "delete", "rename", "mode"], 2))]
@@ -388,6 +409,15 @@ def history_runs(run_, exe, rng, n, prop):
             rep = dict(scenario=describe(s), second_run=dict(argv=l2.opts_to_argv(t["opts"]), exit=r["exit"], stdout=r["stdout"].decode("latin-1")[-1200:],
                                                              stderr=r["stderr"].decode("latin-1")[-400:], tree=fmt_tree(r["tree"])))
             ambiguous = any(first_hunk_still_applies(x) for x in s["secs"]) or any(x["kind"] in ("add", "delete") for x in s["secs"])
+            # a first run that needed fuzz leaves a file in which the hunk may well fit again with fuzz: nothing is claimed
+            # (the runs are still compared with the model)
+            if s.get("how") == "F3" and name != "f":
+                continue
+            if s.get("how") == "l" and name == "t":
+                def nws(t_):
+                    import re as _re
+                    return {p_: (k_, m_, b"\n".join(_re.sub(rb"[ \t]+", b" ", l_).rstrip(b" ") for l_ in d_.split(b"\n")) if k_ == "R" else d_) for p_, (k_, m_, d_) in t_.items()}
+                orig = nws(orig); after2 = nws(after2)
             if name == "R":
                 if r["exit"] != 0:
                     bad.append((idx[j], "apply then apply -R: the reverse run exits %d" % r["exit"], rep)); continue
@@ -519,6 +549,22 @@ def run(prop, tier, seed):
             bad += [(i, d, dict(case=cases[i], impl=impl[i], model=model[i])) for i, d in b1[:20]]
             mism += [(i, "L1", dict(case=cases[i], impl=impl[i], model=model[i])) for i in mm[:3]]
             scns = scenarios_for(prop, rng, n)
+            # reject files left behind by an earlier run (real hunks in them) at the names this run derives
+            for s0 in scns:
+                if rng.random() < 0.3:
+                    for x in s0["secs"]:
+                        rp = s0["opts"].get("r") or ((s0["opts"].get("o") or x["newpath"]) + ".rej")
+                        if rp not in s0["tree"]:
+                            scen.add_parents(s0["tree"], rp)
+                            s0["tree"][rp] = ("R", 0o644, b"--- old\n+++ old\n@@ -1 +1 @@\n-left by\n+an earlier run\n@@ -7 +7 @@\n-second\n+hunk\n")
+            # targets that have to be refused, with and without --dry-run, -r, -o
+            rs = [s0 for s0 in refusal_scenarios(rng, n // 3) if s0["refusal"] != "prereq"]      # (a missing Prereq under --batch aborts the run)
+            for s0 in rs:
+                s0["opts"].update(rng.choice([{}, {"dry": 1}, {"dry": 1}, {"r": "rejects.txt"}, {"dry": 1, "r": "rejects.txt"}, {"o": "outfile"}, {"dry": 1, "o": "outfile"}]))
+                if rng.random() < 0.4:
+                    rp = s0["opts"].get("r") or ((s0["opts"].get("o") or s0["secs"][0]["path"]) + ".rej")
+                    s0["tree"][rp] = ("R", 0o644, b"--- old\n+++ old\n@@ -1 +1 @@\n-left by\n+an earlier run\n")
+            scns += rs
             _, b2, m2 = l2_family(run_, exe, scns, judge_c04, cls=lambda s, r: "exit %d" % r["exit"])
             bad += b2; mism += m2
         elif prop == "C15":
@@ -598,6 +644,39 @@ def run(prop, tier, seed):
             rs = refusal_scenarios(rng, n // 3)
             _, b3, m3 = l2_family(run_, exe, rs, judge_refusal, cls=lambda s, r: "refusal " + s["refusal"])
             bad += b2 + b3; mism += m2 + m3
+            # a series of git patches in one stream (git format-patch output concatenated): several sections for one file, a
+            # mode header on one of them; the file ends with the last mode a header gave it, else with the mode it had
+            ser = []
+            for _ in range(n // 5):
+                lines0 = [(gen.rand_text(rng, True) + str(i_), "L") for i_ in range(rng.randint(3, 7))]
+                cur = list(lines0); mode0 = rng.choice([0o644, 0o600, 0o444, 0o755, 0o640]); want = mode0
+                text = b""; k = rng.choice([2, 2, 3])
+                for j in range(k):
+                    i_ = rng.randrange(len(cur))
+                    ops = [(" ", l) for l in cur]; ops[i_] = ("-", cur[i_]); ops.insert(i_ + 1, ("+", (cur[i_][0] + "x", "L")))
+                    hs = gen.hunks_from_ops(ops, 2)
+                    mo = mn = None
+                    if rng.random() < 0.5:
+                        mo = "100%03o" % (want & 0o777); want = rng.choice([0o755, 0o644, 0o600, 0o750]); mn = "100%03o" % want
+                    if rng.random() < 0.2 and mo:
+                        hs = []
+                    text += emit.emit_git("s/f", "s/f", hs, kind="change", old_mode=mo, new_mode=mn)
+                    if hs:
+                        cur = [l for o_, l in ops if o_ != "-"]
+                tree = {"s": ("D", 0o755, b""), "s/f": ("R", mode0, emit.file_bytes(lines0)), "p.diff": ("R", 0o644, text)}
+                o = dict(rng.choice([{}, {"b": 1}, {"ro": "ignore"}]))
+                o.update(p=1, i="p.diff")
+                ser.append(dict(tree=tree, opts=o, umask=0o022, secs=[], want_mode=want, want_bytes=emit.file_bytes(cur)))
+
+            def judge_series(s, r):
+                a = tree_no_meta(r["tree"]).get("s/f")
+                if r["exit"] != 0 or a is None or a[2] != s["want_bytes"]:
+                    return "a series of git patches for one file did not apply cleanly (exit %d)" % r["exit"]
+                if a[1] != s["want_mode"]:
+                    return "after a series of git patches for one file its mode is %o, the last mode header (or the original mode) says %o" % (a[1], s["want_mode"])
+                return None
+            _, b4, m4 = l2_family(run_, exe, ser, judge_series, cls=lambda s, r: "series exit %d" % r["exit"])
+            bad += b4; mism += m4
         elif prop == "C18":
             scns = scenarios_for(prop, rng, n)
             for _ in range(n // 4):
